@@ -32,6 +32,56 @@
 (*  R5 "otherwise blocks without consuming CPU": the controller's spin observation (the     *)
 (*     same awaiter passed 50 consecutive critical sections, nothing else moved, nothing    *)
 (*     was logged).                                                                          *)
+(*                                                                                          *)
+(* What the logged events bound (the atomic steps / critical sections themselves are not    *)
+(* logged; "call" is logged before the library is entered, "ret" after it has returned):     *)
+(*   B1  the swap of a SetResult happens between its logged call and its logged return; the *)
+(*       result of a SetResult that returned true is certainly available from its logged    *)
+(*       return on (fields written, done channel closed) and was not before its logged call;*)
+(*   B2  a replacement (SetPromise / container.SetResult) takes effect between its logged   *)
+(*       call and its logged return; between the two the container may hold the old or the  *)
+(*       new promise;                                                                        *)
+(*   B3  an await samples / selects between its logged call and its logged return; an await *)
+(*       that returned a result got it from a SetResult that was logged-started before the   *)
+(*       await's logged return (pending or returned), and, on a container, from a promise    *)
+(*       that was possibly current (B2) at some moment between the await's two events;       *)
+(*   B4  a context is not cancelled / a channel has not fired before the logged "cancel" /   *)
+(*       "fire" (logged before cancel() / the send / the close);                             *)
+(*   B5  a "quiet" observation is exact: no goroutine is parked at any hook (in fine          *)
+(*       executions: not at the end of a critical section either), every call in flight is   *)
+(*       an await durably blocked in its select with no case ready.                          *)
+(* Executions come in two granularities (event "cfg", variable fine):                        *)
+(*   coarse (fine = FALSE): a critical section of the container and everything its goroutine *)
+(*       does up to its next critical section or block is ONE controller step: an awaiter    *)
+(*       that a replacement wakes re-samples the container before anything else happens, and  *)
+(*       an awaiter enters its select in the step of its sampling section.  (Combined        *)
+(*       "grant & cancel/fire" steps, sched.Exec.Double, occur at both granularities: the     *)
+(*       cancel / fire is logged first, B4.)                                                 *)
+(*   fine (fine = TRUE; sched.Exec.ParkUnl): the END of a critical section is a park point   *)
+(*       too: between an awaiter's sampling section and its select a replacement AND a        *)
+(*       SetResult on the replaced promise (and a cancellation) can land, the select is       *)
+(*       entered with several cases ready and Go chooses; a replacement's logged return lies  *)
+(*       steps after its effect.  Only B1-B5 hold.  Unknown granularity (no cfg event) is     *)
+(*       treated as fine.                                                                     *)
+(* What each condition rests on:                                                            *)
+(*   SecondTrue      order-free (two calls on one promise returned true).                   *)
+(*   NotFirst        B1: j's logged return before i's logged call => j's swap before i's.     *)
+(*   NoWinner        B1: the swap that beat i belongs to a call logged-started before i's     *)
+(*                   logged return: it is pending or has returned true (or pre-resolved).     *)
+(*   ResultMismatch  order-free (an awaiter's pair for q differs from the winner's pair).     *)
+(*   WrongResult,    B3, B4.  The set of promises a container awaiter may return from is the  *)
+(*   NoCause         interval bound `aux` (B2/B3).  The sharper "follows replacements"         *)
+(*                   reading (`late`: not the result of a promise that got it only after it   *)
+(*                   was certainly replaced) assumes that the awaiter re-sampled at the        *)
+(*                   replacement, i.e. coarse granularity.  In a fine execution the awaiter    *)
+(*                   may sit between its sampling section and its select while the promise is *)
+(*                   replaced and then resolved; its select then finds the replacement         *)
+(*                   channel and the done channel both ready and may take either (the code     *)
+(*                   has no re-check; observation O6 in Promise.tla, tolerated at model level  *)
+(*                   before).  From the events this cannot be told from an awaiter that was   *)
+(*                   rightly woken, so `late` is applied in coarse executions only.           *)
+(*   AwaitStuck      B5 + B1/B2/B4 ("certainly available", "certainly cancelled / fired").     *)
+(*   AwaitSpin       the controller's observation; no event order involved.                  *)
 EXTENDS Naturals, FiniteSets, Sequences, TLC
 
 VARIABLES
@@ -49,34 +99,41 @@ VARIABLES
               \* await: promises that were possibly current at some moment of the call
     canc,     \* await ids whose context has been cancelled
     fired,    \* await id -> "" | how its error/cancel channel fired
+    fine,     \* granularity of this execution (see above)
     bad       \* names of conditions that failed (sticky)
 
-pvars == <<pres, pavail, curposs, late, ck, cst, ca, cres, aux, canc, fired, bad>>
+pvars == <<pres, pavail, curposs, late, ck, cst, ca, cres, aux, canc, fired, fine, bad>>
 
 PInit ==
     /\ pres = <<>> /\ pavail = {} /\ curposs = {0} /\ late = {}
     /\ ck = <<>> /\ cst = <<>> /\ ca = <<>> /\ cres = <<>> /\ aux = <<>>
-    /\ canc = {} /\ fired = <<>> /\ bad = {}
+    /\ canc = {} /\ fired = <<>> /\ bad = {} /\ fine = TRUE
 
 PReset ==
     /\ pres' = <<>> /\ pavail' = {} /\ curposs' = {0} /\ late' = {}
     /\ ck' = <<>> /\ cst' = <<>> /\ ca' = <<>> /\ cres' = <<>> /\ aux' = <<>>
-    /\ canc' = {} /\ fired' = <<>> /\ bad' = {}
+    /\ canc' = {} /\ fired' = <<>> /\ bad' = {} /\ fine' = TRUE
+
+\* The driver tells the granularity of the execution (after "init").
+PCfg(f) ==
+    /\ fine' = f
+    /\ UNCHANGED <<pres, pavail, curposs, late, ck, cst, ca, cres, aux, canc, fired, bad>>
 
 \* Scenario declaration.  pre: sequence of [r, v, e] (r: created resolved with (v,e));
 \* c: the promise the container holds initially (0 = none).
 ScenPres(pre) == [q \in 1..Len(pre) |-> IF pre[q].r THEN <<pre[q].v, pre[q].e>> ELSE <<>>]
 ScenAvail(pre) == {q \in 1..Len(pre) : pre[q].r}
 
-PInitScen(pre, c) ==
+PInitScenF(pre, c, f) ==
     /\ pres = ScenPres(pre) /\ pavail = ScenAvail(pre) /\ curposs = {c} /\ late = {}
     /\ ck = <<>> /\ cst = <<>> /\ ca = <<>> /\ cres = <<>> /\ aux = <<>>
-    /\ canc = {} /\ fired = <<>> /\ bad = {}
+    /\ canc = {} /\ fired = <<>> /\ bad = {} /\ fine = f
+PInitScen(pre, c) == PInitScenF(pre, c, FALSE)
 
 PScen(pre, c) ==
     /\ pres' = ScenPres(pre) /\ pavail' = ScenAvail(pre) /\ curposs' = {c} /\ late' = {}
     /\ bad' = bad \cup (IF ck # <<>> THEN {"Harness"} ELSE {})
-    /\ UNCHANGED <<ck, cst, ca, cres, aux, canc, fired>>
+    /\ UNCHANGED <<ck, cst, ca, cres, aux, canc, fired, fine>>
 
 Ids       == DOMAIN ck
 Proms     == DOMAIN pres
@@ -107,7 +164,7 @@ PCallSet(i, q, v, e, actor) ==
     /\ bad' = bad \cup (IF i \in Ids \/ q \notin Proms \/ v < 1 THEN {"Harness"} ELSE {})
     /\ late' = IF q \in Proms /\ q \notin curposs /\ pres[q] = <<>> /\ ~\E j \in SetsOn(q) : TRUE
                THEN late \cup {q} ELSE late
-    /\ UNCHANGED <<pres, pavail, curposs, canc>>
+    /\ UNCHANGED <<pres, pavail, curposs, canc, fine>>
 
 \* ... and returns ok \in BOOLEAN.
 PRetSet(i, ok) ==
@@ -126,7 +183,7 @@ PRetSet(i, ok) ==
         \* an awaiter already returned a different pair as "the result" of q
         \cup (IF ok /\ pres[q] # <<>> /\ pres[q] # pair THEN {"ResultMismatch"} ELSE {})
         \cup (IF ~ok /\ q \notin pavail /\ ~\E j \in others : cst[j] = "pending" THEN {"NoWinner"} ELSE {})
-    /\ UNCHANGED <<curposs, ck, ca, aux, canc, fired, late>>
+    /\ UNCHANGED <<curposs, ck, ca, aux, canc, fired, late, fine>>
 
 \* A replacement call starts: SetPromise(q) (q = 0: nil) or container.SetResult (creates the
 \* resolved promise q).  From now on q may be current, for every call in flight.
@@ -142,7 +199,7 @@ PCallSetp(i, q, actor) ==
     /\ NewCall(i, "setp", Args(q, 0, "", "", actor))
     /\ ReplStart(i, q)
     /\ bad' = bad \cup (IF i \in Ids \/ (q # 0 /\ q \notin Proms) THEN {"Harness"} ELSE {})
-    /\ UNCHANGED <<pres, pavail, canc>>
+    /\ UNCHANGED <<pres, pavail, canc, fine>>
 
 PCallCset(i, q, v, e, actor) ==
     /\ NewCall(i, "cset", Args(q, v, e, "", actor))
@@ -151,7 +208,7 @@ PCallCset(i, q, v, e, actor) ==
     /\ pavail' = pavail \cup {q}
     /\ bad' = bad \cup (IF i \in Ids \/ q \notin Proms \/ v < 1 THEN {"Harness"}
                         ELSE IF pres[q] # <<>> \/ SetsOn(q) # {} THEN {"Harness"} ELSE {})
-    /\ UNCHANGED canc
+    /\ UNCHANGED <<canc, fine>>
 
 \* A replacement call returns: it took effect before now, so the container holds its target
 \* or the target of a replacement that overlapped with it.
@@ -159,14 +216,14 @@ PRetRepl(i) ==
     /\ cst' = [cst EXCEPT ![i] = "done"]
     /\ curposs' = curposs \cap ({ca[i].q} \cup aux[i])
     /\ bad' = bad \cup (IF i \notin Ids \/ ck[i] \notin {"setp", "cset"} \/ cst[i] # "pending" THEN {"Harness"} ELSE {})
-    /\ UNCHANGED <<pres, pavail, ck, ca, cres, aux, canc, fired, late>>
+    /\ UNCHANGED <<pres, pavail, ck, ca, cres, aux, canc, fired, late, fine>>
 
 \* An await starts.  q: the plain promise awaited, 0: the container.  kind: await|errch|cancelch.
 PCallAwait(i, q, kind, actor) ==
     /\ NewCall(i, "await", Args(q, 0, "", kind, actor))
     /\ aux' = (i :> IF q = 0 THEN curposs ELSE {q}) @@ aux
     /\ bad' = bad \cup (IF i \in Ids \/ (q # 0 /\ q \notin Proms) THEN {"Harness"} ELSE {})
-    /\ UNCHANGED <<pres, pavail, curposs, canc, late>>
+    /\ UNCHANGED <<pres, pavail, curposs, canc, late, fine>>
 
 \* Could (v,e) be the result of promise q?  Either it is the known pair, or no result has been
 \* observed yet and a SetResult(v,e) on q is in flight (the awaiter may see the result before
@@ -179,8 +236,8 @@ Match(q, v, e) ==
 
 PRetAwait(i, v, e) ==
     \* "follows replacements": a container awaiter does not return the result of a promise that got it
-    \* only after it had been replaced
-    LET M == {q \in (IF ca[i].q = 0 THEN aux[i] \ late ELSE aux[i]) : Match(q, v, e)} IN
+    \* only after it had been replaced -- judged in coarse executions only (header: WrongResult)
+    LET M == {q \in (IF ca[i].q = 0 /\ ~fine THEN aux[i] \ late ELSE aux[i]) : Match(q, v, e)} IN
     /\ cst' = [cst EXCEPT ![i] = "done"]
     /\ pres' = [q \in Proms |-> IF q \in M /\ pres[q] = <<>> THEN <<v, e>> ELSE pres[q]]
     /\ bad' = bad
@@ -189,18 +246,18 @@ PRetAwait(i, v, e) ==
               ELSE IF v # 0 THEN {"WrongResult:" \o Desc(i)}
               ELSE IF i \in canc \/ fired[i] # "" THEN {}
               ELSE {"NoCause:" \o Desc(i)})
-    /\ UNCHANGED <<pavail, curposs, ck, ca, cres, aux, canc, fired, late>>
+    /\ UNCHANGED <<pavail, curposs, ck, ca, cres, aux, canc, fired, late, fine>>
 
 PCancel(i) ==
     /\ canc' = canc \cup {i}
     /\ bad' = bad \cup (IF i \notin Ids \/ ck[i] # "await" THEN {"Harness"} ELSE {})
-    /\ UNCHANGED <<pres, pavail, curposs, ck, cst, ca, cres, aux, fired, late>>
+    /\ UNCHANGED <<pres, pavail, curposs, ck, cst, ca, cres, aux, fired, late, fine>>
 
 \* The error / cancel channel of await i fired (how: val | nil | close | send).
 PFire(i, how) ==
     /\ fired' = [fired EXCEPT ![i] = how]
     /\ bad' = bad \cup (IF i \notin Ids \/ ck[i] # "await" \/ ca[i].kind = "await" THEN {"Harness"} ELSE {})
-    /\ UNCHANGED <<pres, pavail, curposs, ck, cst, ca, cres, aux, canc, late>>
+    /\ UNCHANGED <<pres, pavail, curposs, ck, cst, ca, cres, aux, canc, late, fine>>
 
 \* Is the result that await i must return certainly available?
 ResultReady(i) ==
@@ -220,21 +277,21 @@ QuietOK(B) == QuietBad(B) = {}
 
 PQuiet(B) ==
     /\ bad' = bad \cup QuietBad(B)
-    /\ UNCHANGED <<pres, pavail, curposs, ck, cst, ca, cres, aux, canc, fired, late>>
+    /\ UNCHANGED <<pres, pavail, curposs, ck, cst, ca, cres, aux, canc, fired, late, fine>>
 
 \* The controller saw this actor pass SpinK critical sections in a row while nothing else
 \* moved and nothing was logged.
 PSpin(actor) ==
     LET S == {i \in PendingK("await") : ca[i].actor = actor} IN
     /\ bad' = bad \cup (IF S = {} THEN {"Harness"} ELSE {"AwaitSpin:" \o Desc(i) : i \in S})
-    /\ UNCHANGED <<pres, pavail, curposs, ck, cst, ca, cres, aux, canc, fired, late>>
+    /\ UNCHANGED <<pres, pavail, curposs, ck, cst, ca, cres, aux, canc, fired, late, fine>>
 
 \* Call i panicked instead of returning (it never "returns that call's value and error" / never
 \* returns true or false).
 PPanic(i) ==
     /\ cst' = [cst EXCEPT ![i] = "done"]
     /\ bad' = bad \cup (IF i \notin Ids \/ cst[i] # "pending" THEN {"Harness"} ELSE {"Panic:" \o ck[i]})
-    /\ UNCHANGED <<pres, pavail, curposs, ck, ca, cres, aux, canc, fired, late>>
+    /\ UNCHANGED <<pres, pavail, curposs, ck, ca, cres, aux, canc, fired, late, fine>>
 
 -----------------------------------------------------------------------------
 (* The property *)
